@@ -139,6 +139,8 @@ def check(ctx, prefixes=SCOPE_PREFIXES, P="C11", ids=None):
 
     # ---------------- R2: sinks
     ctx.rule(ids["R2"], "every external-key sink receives the alias aliased exactly once", floor=12 if P == "C11" else 3)
+    if P == "C11":
+        ctx.rule("C11.R6", "the internal name slot of every field descriptor receives the Python field name", floor=8)
     sink_classes: Dict[str, List[str]] = {}
     for modname in SINK_MODULES:
         if modname not in model.modules:
@@ -176,6 +178,14 @@ def check(ctx, prefixes=SCOPE_PREFIXES, P="C11", ids=None):
                 }.get(kind, kind[4:] if is_bad(kind) else kind)
                 ctx.check(ok, ids["R2"], construct, c,
                           f"{clsname}({pname}=`{short(arg, 50)}`): {why}", fi, c, detail=f"{pname} <- {kind}")
+            if P == "C11" and "name" in bound:
+                # the internal slot: values are stored / read in the Python object under the field's Python name
+                arg = bound["name"]
+                kind = sc.classify(arg)
+                clsname = q.split(".")[-1]
+                ctx.check(kind == NAME, "C11.R6", f"{fi.qualname}:{clsname}.name", c,
+                          f"{clsname}(name=`{short(arg, 50)}`) is {kind}: the Python attribute / constructor keyword of a field is its name; with an alias different from the name the value is stored under (or read from) the wrong attribute",
+                          fi, c, detail=f"name <- {kind}")
     if P == "C11":
         schema_sinks(ctx, scopes)
         # validator error relocation key
@@ -373,6 +383,8 @@ def fixtures(ctx):
 
 
 def mutants(mb):
+    mb.add_text("deser-field-slot-alias", "apischema/deserialization/__init__.py", "                        Field(\n                            field.name,\n", "                        Field(\n                            field.alias,\n", "C11.R6", "Field.name")
+    mb.add_text("ser-field-slot-alias", "apischema/serialization/__init__.py", "                base_field = ComplexField(\n                    field.name,\n", "                base_field = ComplexField(\n                    field.alias,\n", "C11.R6", ".name")
     D = "apischema/deserialization/__init__.py"
     S = "apischema/serialization/__init__.py"
     J = "apischema/json_schema/schema.py"
